@@ -20,16 +20,32 @@ CONFIG = dict(
           "par_experiment (a log trigger reads the state's generator each time the Logger runs; read back from the exported logs) equals the "
           "model's run-seeded generator, for 1-3 problems with different domains x run counts 1-6 x pools 1/2/4/8; exp-user — par_experiment "
           "with a `setup` that supplies its own generator (default backend / ChaCha8 / counting wrapper, seed >= 1000): backend and seed "
-          "observed during every job equal the model's jobGenerator (= the supplied one). PROPERTY PREDICATE (O) of these cases: stream — the "
+          "observed during every job equal the model's jobGenerator (= the supplied one); evaluate-direct / evaluate-component — LARGE "
+          "prepared populations: `(evaluate entry n threads prep seed lo len)` builds n individuals (n from a table of 40 sizes 255..5000 "
+          "around powers of two, primes and round numbers, always 257 and 1000, random sizes 200..6000 (thorough: ..16000) and a tiny one "
+          "0..70, per pool size) with solution [i, (seed+7i) mod 101], prepared as unevaluated / stale value / every third stale / already "
+          "correct / alternating, and hands the slice [lo, lo+len) (every 4th direct call a proper sub-slice) to `Sequential::evaluate` and "
+          "to `Parallel::evaluate` inside a rayon pool of threads in {1,2,3,4,7,8,16} — directly through the `Evaluate` trait on a fresh "
+          "State, or through the `PopulationEvaluator` component run by `Configuration::run` on a hand-built state whose stack is [slice, "
+          "three unevaluated individuals] (extras: Evaluations counter, stack height, evaluated individuals below the top); the objective "
+          "function (sum of squares of small integers, exact) records the order in which individuals enter it (WITNESS schedule) and busy-"
+          "waits a pseudo-random moment; K: sequential result = model evalSeq, parallel result = model evalPar ALONG THE WITNESS, both "
+          "witnesses legal (sorted = the index range, i.e. every individual is handed to the objective function exactly once), extras = "
+          "popEvaluate. PROPERTY PREDICATE (O) of these cases: evaluate-* — EVERY objective value and the extras after the parallel call "
+          "equal those after the sequential call (code against code; classes unevaluated / wrong-value / count / panic); stream — the "
           "two independently constructed walks agree (determinism at any depth); seedmap — no two DIFFERENT seeds s != e with identical "
           "streams (class seed-collision, the pair is in the replay); children — deriving twice gives the same children and parent "
           "positions; exp / exp-user — observed generator = model AND file = single run. "
           "EXPLORATION cases (O only; `agree` is vacuously true, the predicate is: all digests of the case are equal and belong to "
           "completed runs): run-<template> — all 21 templates x 4 variants x random instance/iterations/seed, every 5th case a boundary "
           "seed (5 repetitions quick, 20 thorough): sequential run, again, cloned configuration, the public `Configuration::run` on a "
-          "hand-built state holding the same generator, Parallel evaluator under rayon pools of 1,2,3,4,8,16 threads with an objective "
+          "hand-built state holding the same generator, Parallel evaluator under rayon pools of 1,2,3,4,7,8,16 threads with an objective "
           "that sleeps a pseudo-random 0-200 us per call (alternating original / cloned configuration), the 4-thread pool again, the "
-          "unwrapped problem type, every 4th case a fresh process; gen — generated GA-like configurations; reuse — ONE configuration "
+          "unwrapped problem type, every 4th case a fresh process; big-<template> — real_ga, binary_ga, real_es, real_de, real_pso, real_bh, "
+          "real_ls, permutation_ls, real_iwo, ant_system with the population / offspring / neighbourhood / ant count set to 255..1600 (sizes "
+          "around powers of two, primes, random; thorough: every 10th case 2049..4200), 1-2 iterations: the same set of runs (sequential, again, clone, hand-built, Parallel under "
+          "pools of 1,2,3,4,7,8,16 threads with jitter, 4 threads again); gen — generated GA-like configurations with 2-8 and with 257-1300 "
+          "individuals; reuse — ONE configuration "
           "object run on problem A and then on problem B (different dimension/domain), a clone made after that use, a parallel run, each "
           "against a pristine configuration on B; user-rng — a user-supplied counting generator must be the generator in the final state, "
           "must have been drawn from, and must reproduce the Random::new(seed) run (sequential and parallel); adv-rng — a user generator "
@@ -41,6 +57,8 @@ CONFIG = dict(
     nontrivial=lambda inp: True,
     trusted_base=[
         "rayon's scheduler, the memory model, cloned trait objects and process boundaries are explored (pool sizes x perturbed timing x clone x reuse x fresh process), not modelled",
+        "how the number of threads enters the model: ONLY through the split tree, the worker assignment and the interleaving of `par_iter_mut().for_each`, i.e. through a completion order of the slice's indices (Split, evalParW); that rayon's bridge really divides a slice into contiguous blocks without remainder is rayon's contract, observed per evaluate-* case through the witness schedule (legalSched) but not proved about rayon",
+        "the witness schedule of the evaluate-* cases is the order in which individuals ENTER the objective function (mutex-protected log inside the harness problem EvalProbe), not the order of the writes to the slots; individuals are identified by the tag in the first solution component",
         "rand_core 0.6.4 / rand_chacha 0.3.1 / rand 0.8.8 `SeedableRng::seed_from_u64` of ChaCha8/12/20 and StdRng is the REFERENCE the stream cases compare `Random` with (the harness links the same crate versions as /repo through Cargo.lock); only the counter backend's stream is computed by the model",
         "ChaCha12 (rand_chacha): 'different seeds give different streams' is an ASSUMPTION about the backend's seeding (hypothesis hinj of different_seeds_different_streams / children_pairwise_distinct; a theorem only for the counter backend) explored on 10^4 pairs",
         "problem.objective(&self, ..) is a pure function of the solution and the evaluators ignore the State they are handed (read off src/problems/evaluate.rs; not enforced by the types)",
@@ -54,9 +72,19 @@ CONFIG = dict(
 CONFIG.update(
     level_text=("Proof of schedule-independence of evaluation and of seed derivation ON THE MODEL: parallel evaluation (one write per index in "
                 "an arbitrary completion order) equals sequential evaluation for every schedule that is a permutation of the indices, and "
-                "only the order of objective calls differs (evalPar_eq_evalSeq, eval_calls_perm); runs of a step language whose steps draw "
+                "only the order of objective calls differs (evalPar_eq_evalSeq, eval_calls_perm); EXACTLY the completion orders that visit every "
+                "slot not already holding its objective value reproduce the sequential result — no assumption on the order, the population size "
+                "or the pool (evalPar_eq_evalSeq_iff: an evaluator that skips one unevaluated individual differs from Sequential); for ANY two "
+                "split trees of the slice (their shape is where the thread count enters; a split tree divides the slice without remainder by "
+                "construction), any worker assignment and any interleaving the parallel result is the sequential one, hence the same under both "
+                "pools, for every population size (thread_count_independent); blockwise evaluation with par_chunks_mut(size) equals sequential "
+                "evaluation for every size > 0 and every population size (blockwise_eq_evalSeq) whereas par_chunks_exact_mut(size) does so IFF "
+                "the remainder [len/size*size, len) is already evaluated (blockwise_exact_eq_iff); the PopulationEvaluator component leaves the "
+                "same stack and Evaluations counter under any legal schedule and does not touch populations below the top "
+                "(population_evaluator_schedule_independent); runs of a step language whose steps draw "
                 "from the generator between evaluations, push/merge populations, update best and log end in the same populations x "
-                "generator position x evaluations x best x log for all legal schedules (run_schedule_independent); optimize_with runs on "
+                "generator position x evaluations x best x log for all legal schedules (run_schedule_independent), in particular the same under "
+                "two pools with different schedules (run_thread_count_independent); optimize_with runs on "
                 "the supplied generator whatever the default is (user_generator_decides_run) and so does every par_experiment job whose "
                 "`setup` supplies one, otherwise the job draws from Random::new(run) (experiment_user_generator_kept); `Random` is a "
                 "transparent wrapper: any script of next_u64/next_u32/fill_bytes/try_fill_bytes on with_rng::<B>(seed) answers like the "
@@ -70,11 +98,16 @@ CONFIG.update(
                 "the experiment's file (p, r) is the single run of p seeded with r for every run count, problem count and job order "
                 "(experiment_seed_independent); any order of a step's exported entries denotes the same map. The generator theorems are "
                 "tied to the code by the stream / seedmap / children / exp / exp-user cases (model prediction or rand's own seeding vs. the "
-                "real `Random`). The run-level property itself (real scheduler, rayon, cloned trait objects, reuse of a configuration "
+                "real `Random`); the evaluation theorems are tied to the code by the evaluate-* cases (evalSeq / evalPar along the observed "
+                "schedule / popEvaluate vs. the real Sequential, Parallel and PopulationEvaluator on populations of up to thousands of "
+                "individuals under pools of 1-16 threads; legalSched_sound links the driver's legality check to the theorems' hypothesis). The run-level property itself (real scheduler, rayon, cloned trait objects, reuse of a configuration "
                 "object, process boundaries) is DECIDED BY EXPLORATION: digests of complete final states. No theorem for the cloning clause "
                 "(the model has no component state to copy)."),
-    level_note=("partial: the `stream`, `seedmap`, `children`, `exp` and `exp-user` cases compare a model prediction (or rand's own seeding of "
-                "the backend, trusted) with the code; for all digest cases `agree` is vacuous and the verdict is the exploration predicate "
+    level_note=("partial: the `stream`, `seedmap`, `children`, `exp`, `exp-user` and `evaluate-*` cases compare a model prediction (or rand's own seeding of "
+                "the backend, trusted) with the code; the evaluate-* predicate compares the real parallel with the real sequential evaluator value by value, "
+                "so a size- or thread-count-dependent omission is a VIOLATION with the population size and pool size as input; the thread count is not a "
+                "parameter of the evaluation model except through the schedule, so the independence of what rayon does with it is explored, not proved; "
+                "for all digest cases (run-*, big-*, gen, reuse, user-rng, adv-rng) `agree` is vacuous and the verdict is the exploration predicate "
                 "'all digests equal'. The step language is a small model, not the component interpreter of /repo; it is not executed "
                 "against the code. rayon's real interleavings, the memory model and ChaCha's stream quality are outside the model. A remap "
                 "of the user's seed that is a bijection, or one confined to `Random::new`, or children built with another backend / with colliding seeds, is "
